@@ -447,8 +447,9 @@ fn getc_in_out_body(which: u8) {
     let mut s = any_state();
     let q = any_input(2);
     let vect: u16 = match which { 0 => 0x20, 1 => 0x21, _ => 0x23 };
-    let hi: u16 = kani::any();
-    let instr = 0xF000 | (hi & 0x0F00) | vect; // bits 11:8 are ignored by TRAP
+    // the instruction word is a constant of the harness (a symbolic word, even one with a constant low byte, makes
+    // every arm of trap()'s match feasible for the symbolic executor: >25 min)
+    let instr = 0xF000 | vect;
     let probe: u16 = kani::any();
     let pre = snap(&s);
     let pre_probe = s.mem[probe as usize];
